@@ -28,7 +28,8 @@ var lockMethods = map[string]bool{"Lock": true, "Unlock": true, "RLock": true, "
 // instrumentRepo returns an overlay map original file -> instrumented copy (files without visible operations are omitted).
 func instrumentRepo(tmp string) (map[string]string, error) {
 	cfg := &packages.Config{Mode: packages.NeedName | packages.NeedFiles | packages.NeedSyntax | packages.NeedTypes | packages.NeedTypesInfo | packages.NeedImports | packages.NeedDeps,
-		Dir: repoRoot, Env: append(os.Environ(), "GOFLAGS=-mod=mod", "GOPROXY=off", "GOSUMDB=off", "GOTOOLCHAIN=local")}
+		Dir: repoRoot, Env: append(os.Environ(), "GOFLAGS=-mod=mod", "GOPROXY=off", "GOSUMDB=off", "GOTOOLCHAIN=local"),
+		Overlay: buildOverlayFor("")} // with the harness files: their own atomics / lock operations are visible operations too
 	pkgs, err := packages.Load(cfg, "./api/...", "./core/...", "./util/...")
 	if err != nil {
 		return nil, err
